@@ -128,7 +128,10 @@ def _read_db():
           Feature(seqid="c", source="s", featuretype="mRNA", start=2, end=40, strand="+", attributes={"ID": ["m"], "Parent": ["g"]}),
           Feature(seqid="c", source="s", featuretype="exon", start=3, end=9, strand="+", attributes={"ID": ["e1"], "Parent": ["m"]}),
           Feature(seqid="c", source="s", featuretype="exon", start=8, end=20, strand="+", attributes={"ID": ["e2"], "Parent": ["m"]}),
-          Feature(seqid="c", source="s", featuretype="exon", start=30, end=40, strand="+", attributes={"Parent": ["m"]})]
+          Feature(seqid="c", source="s", featuretype="exon", start=30, end=40, strand="+", attributes={"Parent": ["m"]}),
+          # an explicit id that looks like the NEXT generated key (exon_2): id generation in read-style calls must not
+          # resolve such a coincidence by writing to the database
+          Feature(seqid="c", source="s", featuretype="exon", start=60, end=70, strand="+", attributes={"ID": ["exon_2"], "Parent": ["m"]})]
     path = _dbpath("r.db")
     gffutils.create_db(fs, path, dialect=constants.dialect, checklines=0)
     return path
